@@ -199,6 +199,8 @@ class SimSocket(object):
             k = min(n, len(rx.rcvbuf))
             if k <= 0:
                 return b''
+            if flags & _realsocket.MSG_PEEK:
+                return bytes(rx.rcvbuf[:k])      # looked at, not consumed
             if self.short_reads and k > 1 and self.sim.in_task():
                 if self.sim.chance('network', 0.3, 'short'):
                     k = 1 + self.sim.choose('network', k, 'shortk')
